@@ -150,6 +150,7 @@ impl Module {
 
         let mut local_functions = Vec::new();
         let mut debug_sections = Vec::new();
+        let mut name_sections = Vec::new();
 
         let mut parser = Parser::new(0);
         parser.set_features(wasm_features);
@@ -244,10 +245,11 @@ impl Module {
                             .map_err(anyhow::Error::from)
                             .and_then(|s| ret.parse_producers_section(s)),
                             "name" => {
-                                let name_section_reader = wasmparser::NameSectionReader::new(
-                                    BinaryReader::new(s.data(), s.data_offset(), wasm_features),
-                                );
-                                ret.parse_name_section(name_section_reader, &indices)
+                                // Local names refer to locals that only exist once the
+                                // code section has been processed below, so the name
+                                // section is parsed after the function bodies.
+                                name_sections.push((s.data(), s.data_offset()));
+                                Ok(())
                             }
                             name => {
                                 log::debug!("parsing custom section `{}`", name);
@@ -308,6 +310,14 @@ impl Module {
             config.on_instr_loc.as_ref().map(|f| f.as_ref()),
         )
         .context("failed to parse code section")?;
+
+        for (data, offset) in name_sections {
+            let name_section_reader =
+                wasmparser::NameSectionReader::new(BinaryReader::new(data, offset, wasm_features));
+            if let Err(e) = ret.parse_name_section(name_section_reader, &indices) {
+                log::warn!("failed to parse `name` custom section {}", e);
+            }
+        }
 
         ret.parse_debug_sections(debug_sections)
             .context("failed to parse debug data section")?;
